@@ -638,7 +638,31 @@ def late_edit_programs():
         L.p.width = 3
         return t
 
-    return [("late:narrowed-to-slice-width", narrowed_to_slice_width), ("late:narrowed-to-one-bit", narrowed_to_one_bit),
+    # … and edits made after the design has been exported once, then exported again (every pass has completed on the modules)
+    def reconnected_after_export():
+        c = leaf(2, "AfterLeaf")
+        t = h.Module(name="AfterA"); t.s = h.Signal(width=2); t.w = h.Signal(width=5); t.i = c(p=t.s)
+        h.to_proto(t)
+        t.i.connect("p", t.w)                # five bits on a two-bit port
+        return t
+
+    def child_port_widened_after_export():
+        c = leaf(2, "AfterLeafB")
+        t = h.Module(name="AfterB"); t.s = h.Signal(width=2); t.i = c(p=t.s)
+        h.to_proto(t)
+        c.p.width = 3
+        return t
+
+    def disconnected_after_export():
+        c = leaf(2, "AfterLeafC")
+        t = h.Module(name="AfterC"); t.s = h.Signal(width=2); t.i = c(p=t.s)
+        h.to_proto(t)
+        t.i.disconnect("p")                  # a port left open
+        return t
+
+    return [("after-export:reconnected-to-another-width", reconnected_after_export), ("after-export:child-port-widened", child_port_widened_after_export),
+            ("after-export:disconnected", disconnected_after_export),
+            ("late:narrowed-to-slice-width", narrowed_to_slice_width), ("late:narrowed-to-one-bit", narrowed_to_one_bit),
             ("late:narrowed-inside-concat", narrowed_inside_concat), ("late:bit-4-of-four", narrowed_to_the_bit_below(4, 4, 1)),
             ("late:bits-4-to-7-of-seven", narrowed_to_the_bit_below(slice(4, 8), 7, 4)), ("late:bit-7-of-seven", narrowed_to_the_bit_below(-1, 7, 1)), ("late:port-widened-after-connection", port_widened_after_connection)]
 
@@ -707,7 +731,10 @@ def run(ctx):
         rep.count("late_edits", label)
         returned = [k for k, v in im.items() if v == "returned"]
         if returned:
-            rep.fail("pred", {"stream": "late_edits", "label": label}, {"why": f"a design made ill-formed by a late edit ({label}) is accepted by {returned}", "impl": im})
+            # (edits after a completed export: the recorded findings name the entry points that return; anything else is reported as it is)
+            fkey = label + "/" + "+".join(sorted(returned)) if label.startswith("after-export:") else None
+            rep.fail("pred", {"stream": "late_edits", "label": label}, {"why": f"a design made ill-formed by a late edit ({label}) is accepted by {returned}", "impl": im},
+                     finding_key=fkey)
     rep.extra["by_class"] = by_class
     SCT.run(ctx, [gen_conntypes(rng) for _ in range(300 if ctx.quick else 6000)])
     SOR.run(ctx, [gen_orph(rng) for _ in range(300 if ctx.quick else 6000)])
